@@ -659,7 +659,8 @@ Lemma schedule_k_budget k : forall st st' r,
 Proof.
   induction k as [|k IH]; intros st st' r H Hb Hlen; simpl in H.
   - injection H as <- <-. auto.
-  - destruct (schedule_new_task o st) as [st1 r1] eqn:E1.
+  - destruct (ckpt_missing o st) as [j|]; [injection H as <- <-; split; [exact Hb|simpl; lia]|].
+    destruct (schedule_new_task o st) as [st1 r1] eqn:E1.
     apply schedule_new_task_budget in E1; [|exact Hb|lia]. destruct E1 as (Hb1 & Hl1 & Hn1).
     destruct r1; try (injection H as <- <-; auto; fail).
     apply IH in H; [|exact Hb1|lia]. destruct H as [Hb' Hn']. split; [exact Hb'|lia].
@@ -760,18 +761,47 @@ Proof.
   - destruct (b_td _); intro H; try discriminate; injection H as _ <-; exists id; auto.
   - intro H; injection H as _ <-. exists id; auto.
 Qed.
-Lemma schedule_k_err k : forall st st' e, schedule_k o k st = (st', SErr e) -> resume_error e.
+(* what can be raised while new tasks are scheduled: a resume the backend refuses, or a fault while the checkpoint
+   of another trial is copied inside start_trial *)
+Definition sched_error (e : error) : Prop := resume_error e \/ exists k, e = ECkptMissing k.
+Lemma schedule_k_err k : forall st st' e, schedule_k o k st = (st', SErr e) -> sched_error e.
 Proof.
   induction k as [|k IH]; intros st st' e H; simpl in H; [discriminate|].
+  destruct (ckpt_missing o st) as [j|]; [injection H as _ <-; right; exists j; reflexivity|].
   destruct (schedule_new_task o st) as [st1 r1] eqn:E1. destruct r1.
   - eauto.
   - discriminate.
-  - injection H as _ <-. eapply schedule_new_task_err; eauto.
+  - injection H as _ <-. left. eapply schedule_new_task_err; eauto.
 Qed.
-Lemma schedule_new_tasks_err st st' e : schedule_new_tasks prm o st = (st', SErr e) -> resume_error e.
+Lemma schedule_new_tasks_err st st' e : schedule_new_tasks prm o st = (st', SErr e) -> sched_error e.
 Proof.
   intro H. apply schedule_new_tasks_cases in H. destruct H as (st1 & _ & [[_ Hr]|(k & _ & Hk)]); [discriminate|].
   eapply schedule_k_err; eauto.
+Qed.
+
+(* a start that failed half-way: the last thing that happened is the suggest call; no id was registered *)
+Definition failed_start_shape (st : state) (e : error) : Prop :=
+  exists j cfg tr, e = ECkptMissing j /\ s_trace st = ESSuggest (s_ntrials st) (SStart cfg (Some j)) :: tr /\
+                   s_ntrials st <= j.
+Lemma schedule_k_fault k : forall st st' e, schedule_k o k st = (st', SErr e) ->
+  resume_error e \/ failed_start_shape st' e.
+Proof.
+  induction k as [|k IH]; intros st st' e H; simpl in H; [discriminate|].
+  destruct (ckpt_missing o st) as [j|] eqn:Ec.
+  - injection H as <- <-. right. unfold ckpt_missing in Ec.
+    destruct (o_sug o (s_ns st)) as [|cfg [kk|]|id cfg] eqn:Es; try discriminate.
+    destruct (Nat.ltb kk (s_ntrials st)) eqn:El; [discriminate|]. injection Ec as ->.
+    apply Nat.ltb_ge in El. exists j, cfg, (s_trace st). unfold failed_start. rewrite Es. simpl. auto.
+  - destruct (schedule_new_task o st) as [st1 r1] eqn:E1. destruct r1.
+    + eauto.
+    + discriminate.
+    + injection H as _ <-. left. eapply schedule_new_task_err; eauto.
+Qed.
+Lemma schedule_new_tasks_fault st st' e : schedule_new_tasks prm o st = (st', SErr e) ->
+  resume_error e \/ failed_start_shape st' e.
+Proof.
+  intro H. apply schedule_new_tasks_cases in H. destruct H as (st1 & _ & [[_ Hr]|(k & _ & Hk)]); [discriminate|].
+  eapply schedule_k_fault; eauto.
 Qed.
 
 Lemma loop_0 st c ex : loop prm o 0 st c ex = (st, LFuel).
@@ -824,7 +854,7 @@ Proof.
         apply iteration_end_budget in Ei; [|exact Hb2]. destruct Ei as [Hb3 _]. eapply IH; eauto.
       * injection H as <- <-. split; [exact Hb2|].
         (* scheduling errors are resume errors *)
-        intro Hx. injection Hx as ->. apply schedule_new_tasks_err in Es0. destruct Es0 as [t [H|H]]; discriminate.
+        intro Hx. injection Hx as ->. apply schedule_new_tasks_err in Es0. destruct Es0 as [[t [H|H]]|[j H]]; discriminate.
 Qed.
 
 Lemma run_loop_budget fuel st x :
@@ -857,7 +887,8 @@ Lemma schedule_k_free k : forall st, length (s_running st) + k <= n_workers prm 
 Proof.
   intros st Hlen Hb j. revert k st Hlen Hb. induction j as [|j IH]; intros k st Hlen Hb st1 r1 Hj H Hr; simpl in H.
   - injection H as <- <-. lia.
-  - destruct (schedule_new_task o st) as [st2 r2] eqn:E2.
+  - destruct (ckpt_missing o st) as [j0|]; [injection H as <- <-; discriminate|].
+    destruct (schedule_new_task o st) as [st2 r2] eqn:E2.
     apply schedule_new_task_budget in E2; [|exact Hb|lia]. destruct E2 as (Hb2 & Hl2 & _).
     destruct r2; try (injection H as <- <-; discriminate).
     destruct k as [|k]; [lia|]. eapply (IH k st2); eauto; lia.
@@ -991,6 +1022,8 @@ Qed.
 Lemma schedule_k_ext k : forall st st' r, schedule_k o k st = (st', r) -> ext sched_ev st st'.
 Proof.
   induction k as [|k IH]; intros st st' r H; simpl in H; [injection H as <- <-; apply ext_refl|].
+  destruct (ckpt_missing o st) as [j|].
+  { injection H as <- <-. exists [ESSuggest (s_ntrials st) (o_sug o (s_ns st))]. auto. }
   destruct (schedule_new_task o st) as [st1 r1] eqn:E1. apply schedule_new_task_ext in E1.
   destruct r1; [eapply ext_trans; eauto| |]; injection H as <- <-; exact E1.
 Qed.
@@ -1537,6 +1570,7 @@ Qed.
 Lemma schedule_k_sinv k : forall st st' r, schedule_k o k st = (st', r) -> sinv st -> sinv st'.
 Proof.
   induction k as [|k IH]; intros st st' r H Hs; simpl in H; [injection H as <- <-; exact Hs|].
+  destruct (ckpt_missing o st) as [j|]; [injection H as <- <-; exact Hs|].
   destruct (schedule_new_task o st) as [st1 r1] eqn:E1. apply schedule_new_task_sinv in E1; [|exact Hs].
   destruct r1; [eauto| |]; injection H as <- <-; exact E1.
 Qed.
@@ -1829,6 +1863,7 @@ Lemma schedule_k_count p k : forall st st' r,
   num_status p (s_smap st') <= num_status p (s_smap st) /\ s_ntrials st' <= s_ntrials st + k.
 Proof.
   induction k as [|k IH]; intros st st' r Hp H; simpl in H; [injection H as <- <-; lia|].
+  destruct (ckpt_missing o st) as [j|]; [injection H as <- <-; simpl; lia|].
   destruct (schedule_new_task o st) as [st1 r1] eqn:E1. apply (schedule_new_task_count p) in E1; [|exact Hp].
   destruct r1; [apply IH in H; [lia|exact Hp]| |]; injection H as <- <-; lia.
 Qed.
@@ -2047,6 +2082,8 @@ Qed.
 Lemma schedule_k_idinv k : forall st st' r, schedule_k o k st = (st', r) -> idinv st -> idinv st'.
 Proof.
   induction k as [|k IH]; intros st st' r H Hi; simpl in H; [injection H as <- <-; exact Hi|].
+  destruct (ckpt_missing o st) as [j|].
+  { injection H as <- <-. destruct Hi as [A B]. unfold idinv, failed_start. simpl. auto. }
   destruct (schedule_new_task o st) as [st1 r1] eqn:E1. apply schedule_new_task_idinv in E1; [|exact Hi].
   destruct r1; [eauto| |]; injection H as <- <-; exact E1.
 Qed.
@@ -2537,6 +2574,11 @@ Qed.
 Lemma schedule_k_life k : forall st st' r, schedule_k o k st = (st', r) -> LInv st -> LInv st'.
 Proof.
   induction k as [|k IH]; intros st st' r H Hi; simpl in H; [injection H as <- <-; exact Hi|].
+  destruct (ckpt_missing o st) as [j|].
+  { injection H as <- <-. destruct Hi as [HLI HR].
+    destruct (LI_quiet st (failed_start o st) [ESSuggest (s_ntrials st) (o_sug o (s_ns st))]) as [HL Ho]; auto.
+    - intros x e [<-|[]]. reflexivity.
+    - split; [exact HL|]. intros t Ht. rewrite Ho. apply HR. exact Ht. }
   destruct (schedule_new_task o st) as [st1 r1] eqn:E1. apply schedule_new_task_life in E1; [|exact Hi].
   destruct r1; [eauto| |]; injection H as <- <-; exact E1.
 Qed.
@@ -2680,6 +2722,8 @@ Lemma schedule_k_xinv k : forall st st' r, schedule_k o k st = (st', r) -> xinv 
   match r with SStopIteration => xinv st' true | SOk => xinv st' false | SErr _ => no_suggest_after_none (s_trace st') end.
 Proof.
   induction k as [|k IH]; intros st st' r H Hi; simpl in H; [injection H as <- <-; exact Hi|].
+  destruct (ckpt_missing o st) as [j|].
+  { injection H as <- <-. destruct Hi as [A B]. unfold failed_start. simpl. repeat split; auto. }
   destruct (schedule_new_task o st) as [st1 r1] eqn:E1. apply schedule_new_task_xinv in E1; [|exact Hi].
   destruct r1; [exact (IH _ _ _ H E1)| |]; injection H as <- <-; exact E1.
 Qed.
